@@ -1,4 +1,5 @@
 import PytaskProofs.Lemmas.EngineInv
+import PytaskProofs.Lemmas.EngineExit
 import PytaskProofs.Lemmas.EngineExample
 /-!
 # C03 — nothing is re-executed unless something it depends on changed
@@ -80,6 +81,19 @@ theorem C03_repeat (F : BodyFn) (P : Project) (cfg1 cfg2 : Cfg) (w : World) (pic
     obtain ⟨h3, h4⟩ := quiet_buildLoop F P g2 cfg2 r1.w hforce hrows picks2 so2 so2' _ s2 rfl hloop2
     exact ⟨by rw [hl2, h4], by rw [hw2, h3]⟩
 
+/-- **C03_repeat_exit0** (the headline form). A non-dry build that ran to its natural end, returned
+exit code 0 and skipped no task (no skip markers hit, nothing deselected) is followed by silence:
+any later non-forced build of the world it left, with any options and any schedule, executes
+nothing and changes nothing. -/
+theorem C03_repeat_exit0 (F : BodyFn) (P : Project) (cfg1 cfg2 : Cfg) (w : World) (picks1 picks2 : List Nat)
+    (r1 r2 : Result) (hwf : WF P)
+    (h1 : build F P cfg1 w picks1 = .ok r1) (hexit : r1.exit = 0) (hcomplete : r1.complete = true)
+    (hdry : cfg1.dry = false) (hnoskip : ∀ e ∈ r1.reports, e.2 ≠ Outcome.skip)
+    (hforce : cfg2.force = false) (h2 : build F P cfg2 r1.w picks2 = .ok r2) :
+    r2.log = [] ∧ r2.w = r1.w :=
+  C03_repeat F P cfg1 cfg2 w picks1 picks2 r1 r2 hwf h1 hdry
+    (all_good_of_exit0 hwf h1 hexit hcomplete hdry hnoskip) hforce h2
+
 /-! ## non-vacuity (project `exP`: input 10 → task 0 → 20 → task 1 → 21, 22; see `Lemmas/EngineExample.lean`) -/
 
 /-- The hypotheses of `C03_repeat` hold for the first build of the example project; hence every
@@ -90,6 +104,11 @@ example : ∀ (cfg2 : Cfg) (picks2 : List Nat) (r2 : Result), cfg2.force = false
   refine C03_repeat exF exP {} cfg2 exW [0, 1] picks2 exR1 r2 exWF exBuild1 rfl ?_ hf h2
   intro t ht
   rcases mem_exP ht with rfl | rfl <;> (left; decide)
+
+/-- The same through the exit code: `exR1` has exit code 0, is complete and skipped nothing. -/
+example : ∀ (picks2 : List Nat) (r2 : Result), build exF exP {} exR1.w picks2 = .ok r2 → r2.log = [] :=
+  fun picks2 r2 h2 =>
+    (C03_repeat_exit0 exF exP {} {} exW [0, 1] picks2 exR1 r2 exWF exBuild1 rfl rfl rfl (by decide) rfl h2).1
 
 /-- … and the claim is not empty: the first build did execute both tasks, a build after an edit of
 the input executes both again, a build after an edit of task 1's module executes task 1 only
